@@ -566,6 +566,148 @@ def check_dpd_model(reaction_name, ref):
     return fails, len(zs)
 
 
+# ---------------------------------------------------------------- DPD models: builder options x thinned reactions
+OPTS = [("default", False, None), ("scalar_m0", True, None), ("stable_all", False, [1, 2, 3]),
+        ("stable_some", False, [3]), ("both_all", True, [1, 2, 3]), ("both_some", True, [1, 3])]
+
+
+def topology_groups(name):
+    """indices of the transitions of each decay topology (= of each subsystem that has a resonance)"""
+    import reactions
+    r = reactions.load(name)
+    groups = {}
+    for i, t in enumerate(r.transitions):
+        groups.setdefault(t.topology, []).append(i)
+    return [sorted(v) for v in groups.values()]
+
+
+def dpd_eval_cases(tier_full):
+    names = ["jpsi_ksp_hel", "lc_pkpi_hel"] + (["jpsi_ksp1750_hel", "jpsi_ksp_can", "lc_pkpi_can"] if tier_full else [])
+    cases, n = [], 0
+    for name in names:
+        keeps = [None] + (topology_groups(name) if len(topology_groups(name)) > 1 else [])
+        for keep in keeps:
+            for ref in (1, 2, 3):
+                opts = OPTS if tier_full else [OPTS[n % len(OPTS)], OPTS[(n + 4) % len(OPTS)]]
+                for tag, scalar, stable in opts:
+                    cases.append({"kind": "dpd_eval", "opts": tag, "ev_seed": 1000 + n,
+                                  "cfg": {"reaction": name, "keep": keep, "align": f"dpd{ref}", "scalar_m0": scalar,
+                                          "stable": stable, "couplings": False, "dyn": "none"}})
+                n += 1
+    return cases
+
+
+def gen_float_events(rng, m0, m1, m2, m3, n):
+    """n interior three-body events (float64) in the parent rest frame with the given masses."""
+    out = {1: [], 2: [], 3: []}
+    for _ in range(n):
+        lo, hi = (m1 + m2) ** 2, (m0 - m3) ** 2
+        s12 = lo + (hi - lo) * rng.uniform(0.08, 0.92)
+        c = rng.uniform(-0.9, 0.9)
+        sn = np.sqrt(1 - c * c)
+        e3 = (m0 * m0 + m3 * m3 - s12) / (2 * m0)
+        k3 = np.sqrt(max(e3 * e3 - m3 * m3, 0.0))
+        r = np.sqrt(s12)
+        e1s = (s12 + m1 * m1 - m2 * m2) / (2 * r)
+        q = np.sqrt(max(e1s * e1s - m1 * m1, 0.0))
+        gam, bg = (m0 - e3) / r, k3 / r
+        p1 = np.array([gam * e1s + bg * q * c, q * sn, 0.0, bg * e1s + gam * q * c])
+        e2s = r - e1s
+        p2 = np.array([gam * e2s - bg * q * c, -q * sn, 0.0, bg * e2s - gam * q * c])
+        p3 = np.array([e3, 0.0, 0.0, -k3])
+        w, x, y, z = (rng.uniform(-1, 1) for _ in range(4))
+        nq = w * w + x * x + y * y + z * z
+        R = np.array([[w*w + x*x - y*y - z*z, 2*(x*y - w*z), 2*(x*z + w*y)],
+                      [2*(x*y + w*z), w*w - x*x + y*y - z*z, 2*(y*z - w*x)],
+                      [2*(x*z - w*y), 2*(y*z + w*x), w*w - x*x - y*y + z*z]]) / nq
+        for k, pk in ((1, p1), (2, p2), (3, p3)):
+            out[k].append(np.concatenate([[pk[0]], R @ pk[1:]]))
+    return {k: np.array(v) for k, v in out.items()}
+
+
+TOL_MODEL = 1e-6  # float64 evaluation of well-conditioned interior events (|cos| of every angle < 1 - 1e-3)
+
+
+def check_dpd_eval(c):
+    """Formulate the model, then (i) mass parameter defaults are the particles' masses, (ii) every mass
+    kinematic variable m_S is the invariant mass of exactly the momenta named in S, (iii) EVERY zeta variable,
+    with parameter defaults inserted, evaluated on events equals the angle measured from the four-momenta."""
+    import modelgen
+
+    fails, n_eval = [], 0
+    cfg = c["cfg"]
+    reaction, _builder, model = modelgen.build(cfg)
+    ident = f"{cfg['reaction']} keep={'all' if cfg['keep'] is None else len(cfg['keep'])} {cfg['align']} {c['opts']}"
+    fs = {i: reaction.final_state[i].mass for i in (1, 2, 3)}
+    m0 = next(iter(reaction.initial_state.values())).mass
+    kv, pd = model.kinematic_variables, model.parameter_defaults
+    for sym, val in pd.items():
+        mm = re.match(r"m_(\d+)$", sym.name)
+        if not mm or not isinstance(sym, sp.Symbol):
+            continue
+        digits = mm.group(1)
+        want = m0 if digits in ("0", "123") else fs[int(digits)] if len(digits) == 1 else None
+        if want is None or val != want:
+            fails.append(("dpd_mass_parameter", f"{ident}: parameter default {sym.name} = {val} but the particle's "
+                                                f"mass is {want}"))
+    rng = random.Random(c["ev_seed"])
+    n = 6
+    ev = gen_float_events(rng, m0, fs[1], fs[2], fs[3], n)
+    psyms = {k: sp.Symbol(f"p{k}") for k in (1, 2, 3)}
+
+    def evaluate(expr):
+        e = expr.xreplace(pd).doit()
+        extra = [x for x in e.free_symbols if str(x) not in ("p1", "p2", "p3")]
+        if extra:
+            return None, extra
+        syms = sorted(e.free_symbols, key=str)
+        with np.errstate(all="ignore"):
+            v = sp.lambdify(syms, e, "numpy", cse=True)(*[ev[int(str(x)[1:])] for x in syms])
+        return np.broadcast_to(np.asarray(v, dtype=complex), (n,)), None
+
+    def minv(ids):
+        tot = sum(ev[k] for k in ids)
+        return np.sqrt(np.maximum(tot[:, 0] ** 2 - np.sum(tot[:, 1:] ** 2, axis=1), 0))
+
+    for sym, expr in kv.items():
+        mm = re.match(r"m_(\d+)$", sym.name)
+        if not mm:
+            continue
+        ids = [1, 2, 3] if mm.group(1) == "0" else [int(d) for d in mm.group(1)]
+        val, extra = evaluate(expr)
+        n_eval += n
+        if extra or not np.all(np.abs(val - minv(ids)) < 1e-9):
+            fails.append(("dpd_mass_definition", f"{ident}: kinematic variable {sym.name} = {expr} is not the invariant "
+                                                 f"mass of exactly p{'+p'.join(map(str, ids))}"))
+    zetas = [(sym, expr) for sym, expr in kv.items() if "zeta" in sym.name or "theta" in sym.name and "hat" in sym.name]
+    if not zetas:
+        fails.append(("dpd_model_definitions", f"{ident}: the model defines no alignment angles"))
+    exps = []
+    for e in range(n):
+        P = {k: [mp.mpf(float(x)) for x in ev[k][e]] for k in (1, 2, 3)}
+        exps.append(oracle(P, set(), {(1, 2): True, (1, 3): True, (2, 3): True}))
+    for sym, expr in zetas:
+        mm = re.match(r"\\zeta\^(\d)_\{(\d)\((\d)\)\}$", sym.name)
+        if not mm:
+            fails.append(("dpd_model_definitions", f"{ident}: unparsable angle symbol {sym.name}"))
+            continue
+        key = ("zeta", *map(int, mm.groups()))
+        val, extra = evaluate(expr)
+        n_eval += n
+        if extra:
+            fails.append(("dpd_angle_undefined", f"{ident}: {sym.name} still contains {sorted(map(str, extra))} after "
+                                                 f"inserting the kinematic definitions and parameter defaults"))
+            continue
+        want = np.array([float(x[key]) for x in exps])
+        bad = ~(np.abs(val.imag) < 1e-12) | ~(np.abs(val.real - want) < TOL_MODEL)
+        if np.any(bad):
+            e = int(np.argmax(bad))
+            fails.append(("dpd_angle_from_model", f"{ident}: {sym.name} evaluated from the model = {val[e]} but the "
+                                                  f"four-momentum evaluator gives {want[e]!r} (event {e}: p1={ev[1][e].tolist()}, "
+                                                  f"p2={ev[2][e].tolist()}, p3={ev[3][e].tolist()})"))
+    return fails, n_eval
+
+
 DPD_CASES = [("jpsi_ksp_hel", 1), ("jpsi_ksp_hel", 2), ("jpsi_ksp_hel", 3),
              ("lc_pkpi_hel", 1), ("lc_pkpi_hel", 2), ("lc_pkpi_hel", 3)]
 
@@ -575,6 +717,8 @@ def run_case(impl, c):
         return check_structure(impl), 144
     if c["kind"] == "dpd_model":
         return check_dpd_model(c["reaction"], c["ref"])
+    if c["kind"] == "dpd_eval":
+        return check_dpd_eval(c)
     return check_event(impl, c)
 
 
@@ -589,6 +733,7 @@ def main():
     rng = random.Random(seed)
     cases = [{"kind": "structure"}]
     cases += [{"kind": "dpd_model", "reaction": r, "ref": k} for r, k in DPD_CASES]
+    cases += dpd_eval_cases(tier_full=n > 500)
     cases += [gen_case(rng, idx) for idx in range(n)]
     failures, distinct, samples, kinds = [], set(), [], {}
     evaluations = 0
